@@ -517,6 +517,7 @@ class Oracle:
         self.early_relay = {}     # (node, cid, creation) -> forwarded relay_early cells
         self.early_origin = {}    # (cid, creation) -> non-extend cells marked relay_early
         self.expect_gone = []     # (node id, table, cid, destroy time, due)
+        self.circ_side = {}       # (node id, cid) -> time of the last create / cell for that id
         self.seen_segs = 0
         self.max_entries = 0
         self.checked_entries = 0
@@ -534,10 +535,24 @@ class Oracle:
         return mi, sw, d, nht, init
 
     def at_instant(self, w, t, post):
+        # (0) what counts as activity of an exit entry is traffic from the circuit side: the create that made it and
+        #     the cells that arrive for its id - judged here from the datagrams, not from last_activity
+        for sg in w.segs[self.seen_segs:]:
+            if sg.kind == "Packet":
+                data = sg.args["data"]
+                if len(data) >= 29 and data[22] == 0:
+                    self.circ_side[(w.nid(sg.node), struct.unpack_from("!I", data, 23)[0])] = sg.t
+            elif sg.kind == "RunCreate":
+                self.circ_side[(w.nid(sg.node), sg.args["cid"])] = sg.t
         # (1) every entry in a table was active recently enough: nothing outlives its limits
         for i, a in post.items():
             node = w.nodes[i]
             mi, sw, d, nht, init = self.limits(node)
+            for e in a["exits"]:
+                ca = self.circ_side.get((i, e[0]))
+                if ca is not None and t > ca + mi + sw + d:
+                    self.bad("exit-outlives-circuit-silence", "node %d exit socket %d: nothing from the circuit side since %d, "
+                             "entry still present at %d (last_activity %d)" % (i, e[0], ca, t, e[1][1]))
             for r in a["relays"]:
                 self.checked_entries += 1
                 if t > r[1][1] + mi + sw + d:
@@ -719,7 +734,25 @@ async def _scenario(loop, spec, want_cases):
         deadline = max(deadline, T_CREATE + rh.tk(n0.settings.max_time) + sw + d + b1)
     deadline += slack
     res["deadline"] = deadline
-    await loop.advance((deadline - t_td) / TPS)
+    if spec.get("outside_after"):
+        # the peer in the outside world does not know about the teardown: it keeps sending allowed datagrams to the
+        # exit's outside ports (IPv4 and IPv6 alternately), more often than max_time_inactive, until past the deadline
+        period = int(spec.get("outside_period", 8 * TPS))
+        now, k, sent = t_td, 0, 0
+        while now + period <= deadline:
+            await loop.advance(period / TPS)
+            now += period
+            for ni, n in enumerate(w.nodes):
+                if ni == w.crashed:
+                    continue
+                for cid, sock in list(n.exit_sockets.items()):
+                    if sock.enabled and sock.transport_ipv4 is not None:
+                        sent += bool(w.api_outside(n, cid, BT_DATA, v6=bool(k % 2)))
+            k += 1
+        res["outside_after"] = sent
+        await loop.advance((deadline - now) / TPS)
+    else:
+        await loop.advance((deadline - t_td) / TPS)
     orc.final(w, "deadline")
     cases, problems = ([], [])
     if want_cases:
@@ -908,6 +941,14 @@ def families(quick, rng, seed0=0):
                 base["t_td"] = half_time(k)
                 jobs.append({"base": base, "enumerate": "build", "upto": up_half if (quick and h == 3 and False) else up_half,
                              "lockstep": 1 if quick else 2})
+        # the outside peer keeps talking to the exit after the circuit was torn down / abandoned upstream
+        outs = [(("node", p), m) for p in range(h) for m in ("destroy", "silent")]
+        outs += [(("cut", j), "cut") for j in range(1, h + 1)] + [(("crash", p), "crash") for p in range(h)]
+        for init, mode in outs:
+            jobs.append({"base": {"hops": h, "phase": "transfer", "init": init, "mode": mode, "seed": seed0 + len(jobs) + 1,
+                                  "family": "outside-peer", "outside_after": True,
+                                  "outside_period": (8 if len(jobs) % 2 else 15) * TPS},
+                         "enumerate": "destroy" if mode == "destroy" else None, "upto": 3, "lockstep": 5})
         # age limit and traffic limit, nobody tears anything down
         jobs.append({"base": {"hops": h, "phase": "ready", "init": None, "mode": "none", "seed": seed0 + len(jobs) + 1,
                               "family": "age-limit", "settings": {"max_time": 40}}, "enumerate": None, "upto": 0, "lockstep": 5})
@@ -925,6 +966,9 @@ def families(quick, rng, seed0=0):
                 "random": {"tags": ["create", "created", "extend", "extended", "destroy", "ping", "pong", "data"],
                            "drop": rng.choice((0.05, 0.15, 0.3)), "dup": rng.choice((0.0, 0.1, 0.25)),
                            "delay": rng.choice((0.0, 0.15, 0.3))}}
+        if phase == "transfer" and rng.random() < 0.5:
+            base["outside_after"] = True
+            base["outside_period"] = rng.choice((4, 8, 15)) * TPS
         if phase == "half":
             base["k"] = rng.randrange(h)
             base["t_td"] = half_time(base["k"])
